@@ -256,6 +256,8 @@ pub const G_STOP: u8 = 2;
 pub const G_HS: u8 = 3;
 /// the control service handling a "write back-pressure enabled" notification (only when `hold_backpressure` is set)
 pub const G_BP: u8 = 4;
+/// the per-connection publish service factory (server roles; only when the configuration asks for `hold_factory`)
+pub const G_FACT: u8 = 5;
 
 impl App {
     pub fn new() -> Rc<App> {
